@@ -2,24 +2,24 @@
 from . import k01, k04, k05, k11, k12, k13, k14, k16, k17, k18, k19, k20, lfam  # noqa: F401
 
 PLAN = {
-    "C01": ["K01b", "L01"],
+    "C01": ["K01b", "K01c", "L01"],
     "C02": ["L02"],
-    "C03": ["K01b", "K03", "K12a", "L03"],
-    "C04": ["K04a", "K04c", "K16", "L04"],
+    "C03": ["K01b", "K01c", "K03", "K12a", "L03"],
+    "C04": ["K04a", "K04c", "K04f", "K16", "L04"],
     "C05": ["K05a", "L05", "L05b"],
     "C06": ["K06", "L06"],
     "C07": ["L07"],
     "C08": ["K14b", "L08"],
     "C09": ["L09"],
     "C10": ["L10"],
-    "C17": ["K17", "K17b"],
+    "C17": ["K17", "K17b", "K17c"],
     "C18": ["K18a", "K18b", "L18"],
     "C19": ["K19b", "L19"],
     "C11": ["K11a", "K11b", "L11"],
     "C12": ["K12a", "K12b", "K12d", "K12e"],
     "C13": ["K12a", "K13a", "K13b", "K14b"],
     "C14": ["K14a", "K14b"],
-    "C15": ["K12e", "K14b", "L15"],
-    "C16": ["K16"],
-    "C20": ["K20a", "K20b"],
+    "C15": ["K12e", "K14b", "L15", "L15b"],
+    "C16": ["K04f", "K16"],
+    "C20": ["K20a", "K20b", "L15b"],
 }
